@@ -270,10 +270,3 @@ def search(ctx):
 def shrink(ctx, f):
     return f
 
-
-def replay(ctx, path):
-    import json
-    with open(path) as h:
-        rp = json.load(h)
-    print(json.dumps(rp, indent=1)[:4000])
-    return 0
